@@ -93,8 +93,8 @@ pub fn probe_trace(tag: u8) -> Vec<Packet> {
     let req = http1::Request { method: "GET".into(), target: "/probe".into(), v11: true, headers: vec![http1::Hdr { name: "Host".into(), value: "probe.test".into(), ows_before: " ".into(), ows_after: String::new() }, http1::Hdr { name: "User-Agent".into(), value: "Mozilla/5.0 Firefox/3.6".into(), ows_before: " ".into(), ows_after: String::new() }, http1::Hdr { name: "Accept-Language".into(), value: "fr,en;q=0.5".into(), ows_before: " ".into(), ows_after: String::new() }] };
     let resp = http1::Response { v11: true, status: 200, reason: Some("OK".into()), headers: vec![http1::Hdr { name: "Server".into(), value: "nginx/1.18".into(), ows_before: " ".into(), ows_after: String::new() }] };
     let f = |n: &str, v: &str, r| h2::Field { name: n.into(), value: v.as_bytes().to_vec(), repr: r, name_indexed: true, huffman_name: false, huffman_value: true };
-    let h2req = crate::props::c16::H2Case { request: true, block: h2::Block { size_updates: vec![], fields: vec![f(":method", "GET", h2::Repr::PreferIndexed), f(":path", "/h2probe", h2::Repr::LiteralIndexed), f(":scheme", "https", h2::Repr::PreferIndexed), f(":authority", "probe.test", h2::Repr::LiteralIndexed), f("user-agent", "probe/2", h2::Repr::LiteralIndexed), f("x-probe", "v", h2::Repr::LiteralIndexed), f("x-probe", "v", h2::Repr::PreferIndexed)] }, framing: h2::HeadersFraming { stream: 1, end_stream: true, pad: None, priority: None, splits: vec![], reserved_bit: false }, pre: vec![crate::props::c16::PreFrame::Settings(vec![(1, 65536), (4, 131072)])], body: None };
-    let h2resp = crate::props::c16::H2Case { request: false, block: h2::Block { size_updates: vec![], fields: vec![f(":status", "200", h2::Repr::PreferIndexed), f("server", "h2srv", h2::Repr::LiteralIndexed)] }, framing: h2::HeadersFraming { stream: 1, end_stream: true, pad: None, priority: None, splits: vec![], reserved_bit: false }, pre: vec![crate::props::c16::PreFrame::Settings(vec![(3, 100)])], body: None };
+    let h2req = crate::props::c16::H2Case { request: true, block: h2::Block { size_updates: vec![], fields: vec![f(":method", "GET", h2::Repr::PreferIndexed), f(":path", "/h2probe", h2::Repr::LiteralIndexed), f(":scheme", "https", h2::Repr::PreferIndexed), f(":authority", "probe.test", h2::Repr::LiteralIndexed), f("user-agent", "probe/2", h2::Repr::LiteralIndexed), f("x-probe", "v", h2::Repr::LiteralIndexed), f("x-probe", "v", h2::Repr::PreferIndexed)] }, framing: h2::HeadersFraming { stream: 1, end_stream: true, pad: None, priority: None, splits: vec![], reserved_bit: false }, pre: vec![crate::props::c16::PreFrame::Settings(vec![(1, 65536), (4, 131072)])], body: None , hostile_tail: vec![] };
+    let h2resp = crate::props::c16::H2Case { request: false, block: h2::Block { size_updates: vec![], fields: vec![f(":status", "200", h2::Repr::PreferIndexed), f("server", "h2srv", h2::Repr::LiteralIndexed)] }, framing: h2::HeadersFraming { stream: 1, end_stream: true, pad: None, priority: None, splits: vec![], reserved_bit: false }, pre: vec![crate::props::c16::PreFrame::Settings(vec![(3, 100)])], body: None , hostile_tail: vec![] };
     let t = TraceCase {
         conns: vec![mk(0, Script::None, 22), mk(1, Script::Http1 { req, resp, resp_body: b"hello".to_vec() }, 80), mk(2, Script::Http2 { req: h2req, resp: h2resp }, 8080), mk(3, Script::Tls { hello: tls::simple_hello(), after: vec![] }, 443)],
         schedule: vec![],
@@ -180,7 +180,7 @@ pub fn stream_probe(junk: &[Vec<u8>]) -> Result<(), Fail> {
     let _ = conn;
     let h2req = {
         let f = |n: &str, v: &str, r| h2::Field { name: n.into(), value: v.as_bytes().to_vec(), repr: r, name_indexed: true, huffman_name: false, huffman_value: false };
-        crate::props::c16::H2Case { request: true, block: h2::Block { size_updates: vec![], fields: vec![f(":method", "GET", h2::Repr::PreferIndexed), f(":path", "/p", h2::Repr::LiteralIndexed), f("x-a", "b", h2::Repr::LiteralIndexed), f("x-a", "b", h2::Repr::PreferIndexed)] }, framing: h2::HeadersFraming { stream: 1, end_stream: true, pad: None, priority: None, splits: vec![], reserved_bit: false }, pre: vec![], body: None }.bytes()
+        crate::props::c16::H2Case { request: true, block: h2::Block { size_updates: vec![], fields: vec![f(":method", "GET", h2::Repr::PreferIndexed), f(":path", "/p", h2::Repr::LiteralIndexed), f("x-a", "b", h2::Repr::LiteralIndexed), f("x-a", "b", h2::Repr::PreferIndexed)] }, framing: h2::HeadersFraming { stream: 1, end_stream: true, pad: None, priority: None, splits: vec![], reserved_bit: false }, pre: vec![], body: None , hostile_tail: vec![] }.bytes()
     };
     for (name, data) in [("http1", h1), ("http2", h2req)] {
         let a = p.parse_request(&data).map(|o| format!("{:?}", o));
@@ -609,6 +609,9 @@ pub fn run(ctx: &Ctx) {
                 Err(e) => return Err(Fail::new(format!("dispatch-{}", panic_key(&e)), e)),
             };
             st.sample(|| json!({"pool": format!("{:?}", kind), "workers": workers, "junk_frames": njunk}));
+            if let Some(p) = &run.worker_panic {
+                return Err(Fail::new(format!("{:?}:worker-{}", kind, panic_key(p)), format!("a worker thread panicked: {p}")));
+            }
             if run.drain_timeout {
                 st.class("drain-timeout(inconclusive)");
                 return Ok(());
@@ -631,6 +634,16 @@ pub fn run(ctx: &Ctx) {
         },
     );
     let _ = (SplitMix(0), trace::addr4(0));
+    // (7) coverage-guided campaigns (thorough tier only)
+    if ctx.tier == crate::engine::Tier::Thorough {
+        let frames_seeds: Vec<Vec<u8>> = capture_packets().into_iter().chain(probe_trace(6).into_iter().map(|p| p.frame)).collect();
+        let stream_seeds: Vec<Vec<u8>> = (0..6u8).map(|k| { let mut v = vec![0x40, 0x90]; v.extend(payload_of(k)); v }).collect();
+        let text_seeds: Vec<Vec<u8>> = std::fs::read_to_string(crate::props::c06::P0F_PATH).unwrap_or_default().lines().filter(|l| l.starts_with("sig") || l.starts_with("label") || l.starts_with('[')).take(400).map(|l| l.as_bytes().to_vec()).collect();
+        for (target, seeds) in [("frames", frames_seeds), ("streams", stream_seeds), ("db_text", text_seeds)] {
+            ctx.fuzz_campaign(target, "seeded", &seeds, 1_500_000, 420);
+            ctx.fuzz_campaign(target, "empty", &[], 1_000_000, 300);
+        }
+    }
 }
 
 pub fn replay(_ctx: &Ctx, sub: &str, input: &serde_json::Value) -> Result<(), Fail> {
